@@ -54,6 +54,10 @@ type Info struct {
 	CMap      string
 	Layout    string
 	Classes   []string
+	// a ligature chain (GSUB 4.1): rules on ChainInputs produce glyphs which
+	// are themselves components of further rules; ChainOutputs are the
+	// intermediate and final ligature glyphs
+	ChainInputs, ChainOutputs []glyph.ID
 	CodeToGID map[rune]glyph.ID
 }
 
@@ -791,6 +795,31 @@ func subsetLayout(r *rand.Rand, f *sfnt.Font, n int, info *Info) {
 				first[a] = append(first[a], l)
 			}
 		}
+		if n >= 9 && r.IntN(3) == 0 {
+			// a chain of ligatures over three or four levels, as conjunct
+			// forms are built: a+b -> x, x+c -> y, x+y -> z (, z+a -> w)
+			perm := r.Perm(n - 1)
+			g := func(i int) glyph.ID { return glyph.ID(perm[i] + 1) }
+			a, b, c, x, y, z, w := g(0), g(1), g(2), g(3), g(4), g(5), g(6)
+			add := func(first0 glyph.ID, l gtab.Ligature) {
+				for _, e := range first[first0] {
+					if fmt.Sprint(e.In) == fmt.Sprint(l.In) {
+						return
+					}
+				}
+				first[first0] = append(first[first0], l)
+			}
+			add(a, gtab.Ligature{In: []glyph.ID{b}, Out: x})
+			add(x, gtab.Ligature{In: []glyph.ID{c}, Out: y})
+			add(x, gtab.Ligature{In: []glyph.ID{y}, Out: z})
+			info.ChainInputs = []glyph.ID{a, b, c}
+			info.ChainOutputs = []glyph.ID{x, y, z}
+			if r.IntN(2) == 0 {
+				add(z, gtab.Ligature{In: []glyph.ID{a}, Out: w})
+				info.ChainOutputs = append(info.ChainOutputs, w)
+			}
+			info.Classes = append(info.Classes, "layout:gsub4.1-chain")
+		}
 		var keys []glyph.ID
 		for a := range first {
 			keys = append(keys, a)
@@ -862,14 +891,62 @@ func subsetLayout(r *rand.Rand, f *sfnt.Font, n int, info *Info) {
 	}
 	// GPOS 2.1
 	if r.IntN(4) != 0 {
+		value := func() *gtab.GposValueRecord {
+			v := &gtab.GposValueRecord{XAdvance: funit.Int16(r.IntN(201) - 100)}
+			if r.IntN(4) == 0 {
+				v.XPlacement = funit.Int16(r.IntN(41) - 20)
+			}
+			if r.IntN(6) == 0 {
+				v.YPlacement = funit.Int16(r.IntN(41) - 20)
+			}
+			return v
+		}
+		var pairs []glyph.Pair
 		kern := gtab.Gpos2_1{}
 		for k := 1 + r.IntN(8); k > 0; k-- {
-			kern[glyph.Pair{Left: gid(), Right: gid()}] = &gtab.PairAdjust{First: &gtab.GposValueRecord{XAdvance: funit.Int16(r.IntN(201) - 100)}}
+			p := glyph.Pair{Left: gid(), Right: gid()}
+			if _, ok := kern[p]; !ok {
+				pairs = append(pairs, p)
+			}
+			kern[p] = &gtab.PairAdjust{First: value()}
+		}
+		lt := &gtab.LookupTable{Meta: &gtab.LookupMetaInfo{LookupType: 2}, Subtables: []gtab.Subtable{kern}}
+		ll := gtab.LookupList{lt}
+		switch r.IntN(4) {
+		case 0:
+			// an earlier subtable with exceptions: pairs without any adjustment
+			// (value formats 0/0) end the lookup for that pair, so that the
+			// kerning of the later subtable does not apply to them
+			exc := gtab.Gpos2_1{}
+			for i, p := range pairs {
+				if i == 0 || r.IntN(3) == 0 {
+					exc[p] = &gtab.PairAdjust{}
+				}
+			}
+			exc[glyph.Pair{Left: gid(), Right: gid()}] = &gtab.PairAdjust{}
+			lt.Subtables = []gtab.Subtable{exc, kern}
+			info.Classes = append(info.Classes, "layout:gpos2.1-exception-subtable")
+		case 1:
+			// a second lookup whose adjustments add to those of the first, with
+			// a value record for the second glyph as well
+			more := gtab.Gpos2_1{}
+			for i, p := range pairs {
+				if i == 0 || r.IntN(2) == 0 {
+					more[p] = &gtab.PairAdjust{First: value(), Second: value()}
+				}
+			}
+			more[glyph.Pair{Left: gid(), Right: gid()}] = &gtab.PairAdjust{First: value(), Second: value()}
+			ll = append(ll, &gtab.LookupTable{Meta: &gtab.LookupMetaInfo{LookupType: 2}, Subtables: []gtab.Subtable{more}})
+			info.Classes = append(info.Classes, "layout:gpos2.1-two-lookups")
+		}
+		feat := &gtab.Feature{Tag: "kern"}
+		for i := range ll {
+			feat.Lookups = append(feat.Lookups, gtab.LookupIndex(i))
 		}
 		f.Gpos = &gtab.Info{
 			ScriptList:  gtab.ScriptListInfo{und: {Required: 0xFFFF, Optional: []gtab.FeatureIndex{0}}},
-			FeatureList: gtab.FeatureListInfo{{Tag: "kern", Lookups: []gtab.LookupIndex{0}}},
-			LookupList:  gtab.LookupList{{Meta: &gtab.LookupMetaInfo{LookupType: 2}, Subtables: []gtab.Subtable{kern}}},
+			FeatureList: gtab.FeatureListInfo{feat},
+			LookupList:  ll,
 		}
 		info.Classes = append(info.Classes, "layout:gpos2.1")
 	}
